@@ -492,7 +492,41 @@ class GuardTracker(Tracker):
                     return ev.path(e['recv'])
         return None
 
+    def _defs(self, ev, st):
+        """D:<local>=<call text>: the local currently holds the result of that call (reaching definition)."""
+        f = ev.f
+        e = ev.e
+        if e is None:
+            return st
+        pairs = []
+        if ev.kind == 'declstmt':
+            for v in e['vars']:
+                dj = f.decls[v['decl']]
+                if dj['kind'] == 'local' and not dj.get('isref'):
+                    pairs.append((dj['name'], v['init']))
+        elif ev.kind == 'binop' and e['op'] in ASSIGN_OPS:
+            t = f.x(f.skip(e['l']))
+            if t is not None and t['k'] == 'ref' and f.decls[t['decl']]['kind'] == 'local':
+                pairs.append((t['name'], e['r'] if e['op'] == '=' else None))
+        elif ev.kind == 'unop' and e['op'] in ('++', '--'):
+            t = f.x(f.skip(e['sub']))
+            if t is not None and t['k'] == 'ref':
+                pairs.append((t['name'], None))
+        if not pairs:
+            return st
+        s = set(st)
+        for name, init in pairs:
+            for x in list(s):
+                if x.startswith('D:%s=' % name):
+                    s.discard(x)
+            if init is not None and init >= 0:
+                ie = f.x(f.skip(init))
+                if ie is not None and ie['k'] == 'call' and ie.get('fn') not in ('likely', 'unlikely'):
+                    s.add('D:%s=%s' % (name, f.show(init, ev.ctx)))
+        return frozenset(s)
+
     def transfer(self, ev, st):
+        st = self._defs(ev, st)
         gs = [x for x in st if x.startswith('G:')]
         if not gs:
             return st
@@ -519,8 +553,9 @@ class GuardTracker(Tracker):
                 dead.add(g)
             elif ev.kind == 'call' and 'errno' in key and _clobbers_errno(ev):
                 dead.add(g)
-            elif shown and shown in key:
+            elif shown and shown in key and ('[' not in key or ('[' + shown + ']') in key):
                 dead.add(g)     # the call is evaluated again: its old outcome is no longer the current one
+                                # (a call-result fact `[f(a())] == n` dies only when f(a()) itself is re-evaluated, not a())
             elif wp is not None and _mentions(key, wp) and not any(re.search(p, key) for p in self.keep_on_write):
                 dead.add(g)
             elif callee and callee in self.kill_calls:
@@ -541,6 +576,14 @@ class GuardTracker(Tracker):
             if o in st:
                 return None   # contradicts a fact that is still valid: infeasible edge
             add.add(t)
+            # the same fact phrased over the call whose result the tested local holds: it survives a later
+            # re-assignment of that local (`ret = read(); if (ret != n) return; ret = 0; ... write()`)
+            for d in st:
+                if d.startswith('D:'):
+                    name, _, call = d[2:].partition('=')
+                    if _mentions(key, name):
+                        k2 = re.sub(r'(?<![\w>\.])%s(?!\w)' % re.escape(name), '[' + call.replace('\\', '\\\\') + ']', key)
+                        add.add('G:%s=%s' % (k2, 'T' if pol else 'F'))
         if add:
             return st | add
         return st
